@@ -1794,6 +1794,14 @@ impl DhtNetworkManager {
         peer_id: &PeerId,
         operation: DhtNetworkOperation,
     ) -> Result<DhtNetworkResult> {
+        // Once stop() has run, operations still in flight must wind down instead of
+        // putting new requests on the wire.
+        if self.shutdown.is_cancelled() {
+            return Err(P2PError::Network(NetworkError::ProtocolError(
+                "DHT network manager is stopped".into(),
+            )));
+        }
+
         // Sweep stale entries left by dropped futures before adding a new one
         self.sweep_expired_operations();
 
